@@ -163,3 +163,21 @@ def compileFast (g : List PgnDef) : Option FastEntry :=
 def compileRev (t : EnumTable) : RevTable := t.map (fun e => (e.1, e.2.map (fun it => (it.2, it.1))))
 
 end N2k.Spec
+
+namespace N2k.Spec
+
+/-! ### selection of a definition by match fields (the property C08 states) -/
+
+def condHolds (data : Nat) (c : Cond) : Bool := (data >>> c.shift) &&& c.mask = c.value
+
+/-- all match fields of the definition equal the payload's bits at those positions -/
+def matchesDef (p : PgnDef) (data : Nat) : Bool := (condsOf p).all (condHolds data)
+
+/-- first non-fallback definition (database order) all of whose match fields equal, otherwise the
+PGN's fallback definition if it has one, otherwise none -/
+def select (g : List PgnDef) (data : Nat) : Option PgnDef :=
+  match (g.filter (fun p => !p.fallback)).find? (fun p => matchesDef p data) with
+  | some p => some p
+  | none => (g.filter (·.fallback)).getLast?
+
+end N2k.Spec
